@@ -215,6 +215,16 @@ def rewrite_split_ops(tens, arch, nng):
     return tens
 
 
+def _reads_ifm_one_to_one(op):
+    # True if the OFM coordinates of the op are also its IFM coordinates: no striding, no padding and no upscaling.
+    # Only then does adding a read offset to the IFM box give the part of the IFM that is to be read
+    if op.kernel.stride.x != 1 or op.kernel.stride.y != 1:
+        return False
+    if op.ifm_resampling_mode != resampling_mode.NONE or op.type.is_resize_op() or op.original_type.is_resize_op():
+        return False
+    return not any(op.attrs.get("explicit_padding", (0, 0, 0, 0)))
+
+
 def remove_SplitSliceRead(op, arch):
 
     if op.type == Op.SplitSliceRead:
@@ -227,6 +237,7 @@ def remove_SplitSliceRead(op, arch):
             and consumer.type not in memory_only_ops
             and consumer.type != Op.Mul
             and consumer.original_type != Op.Transpose
+            and _reads_ifm_one_to_one(consumer)
             for consumer in op.ofm.consumer_list
         ):
             # SplitSliceRead can be performed by tensor consumer(s)
